@@ -10,45 +10,45 @@ import (
 // argument is concrete, lifted over decision tables when table-valued, and
 // handed to the symbolic model (if any) otherwise.
 var pureFns = map[string]func(c []value) value{
-	"strings.HasPrefix":  func(c []value) value { return strings.HasPrefix(c[0].(string), c[1].(string)) },
-	"strings.HasSuffix":  func(c []value) value { return strings.HasSuffix(c[0].(string), c[1].(string)) },
-	"strings.Contains":   func(c []value) value { return strings.Contains(c[0].(string), c[1].(string)) },
-	"strings.ContainsRune": func(c []value) value { return strings.ContainsRune(c[0].(string), rune(asInt64(c[1]))) },
-	"strings.ContainsAny": func(c []value) value { return strings.ContainsAny(c[0].(string), c[1].(string)) },
-	"strings.Index":      func(c []value) value { return strings.Index(c[0].(string), c[1].(string)) },
-	"strings.IndexRune":  func(c []value) value { return strings.IndexRune(c[0].(string), rune(asInt64(c[1]))) },
-	"strings.IndexByte":  func(c []value) value { return strings.IndexByte(c[0].(string), byte(asInt64(c[1]))) },
-	"strings.IndexAny":   func(c []value) value { return strings.IndexAny(c[0].(string), c[1].(string)) },
-	"strings.LastIndex":  func(c []value) value { return strings.LastIndex(c[0].(string), c[1].(string)) },
+	"strings.HasPrefix":     func(c []value) value { return strings.HasPrefix(c[0].(string), c[1].(string)) },
+	"strings.HasSuffix":     func(c []value) value { return strings.HasSuffix(c[0].(string), c[1].(string)) },
+	"strings.Contains":      func(c []value) value { return strings.Contains(c[0].(string), c[1].(string)) },
+	"strings.ContainsRune":  func(c []value) value { return strings.ContainsRune(c[0].(string), rune(asInt64(c[1]))) },
+	"strings.ContainsAny":   func(c []value) value { return strings.ContainsAny(c[0].(string), c[1].(string)) },
+	"strings.Index":         func(c []value) value { return strings.Index(c[0].(string), c[1].(string)) },
+	"strings.IndexRune":     func(c []value) value { return strings.IndexRune(c[0].(string), rune(asInt64(c[1]))) },
+	"strings.IndexByte":     func(c []value) value { return strings.IndexByte(c[0].(string), byte(asInt64(c[1]))) },
+	"strings.IndexAny":      func(c []value) value { return strings.IndexAny(c[0].(string), c[1].(string)) },
+	"strings.LastIndex":     func(c []value) value { return strings.LastIndex(c[0].(string), c[1].(string)) },
 	"strings.LastIndexByte": func(c []value) value { return strings.LastIndexByte(c[0].(string), byte(asInt64(c[1]))) },
-	"strings.TrimPrefix": func(c []value) value { return strings.TrimPrefix(c[0].(string), c[1].(string)) },
-	"strings.TrimSuffix": func(c []value) value { return strings.TrimSuffix(c[0].(string), c[1].(string)) },
-	"strings.TrimSpace":  func(c []value) value { return strings.TrimSpace(c[0].(string)) },
-	"strings.Trim":       func(c []value) value { return strings.Trim(c[0].(string), c[1].(string)) },
-	"strings.TrimLeft":   func(c []value) value { return strings.TrimLeft(c[0].(string), c[1].(string)) },
-	"strings.TrimRight":  func(c []value) value { return strings.TrimRight(c[0].(string), c[1].(string)) },
-	"strings.ToLower":    func(c []value) value { return strings.ToLower(c[0].(string)) },
-	"strings.ToUpper":    func(c []value) value { return strings.ToUpper(c[0].(string)) },
-	"strings.EqualFold":  func(c []value) value { return strings.EqualFold(c[0].(string), c[1].(string)) },
-	"strings.Compare":    func(c []value) value { return strings.Compare(c[0].(string), c[1].(string)) },
-	"strings.Count":      func(c []value) value { return strings.Count(c[0].(string), c[1].(string)) },
-	"strings.Repeat":     func(c []value) value { return strings.Repeat(c[0].(string), int(asInt64(c[1]))) },
-	"strings.ReplaceAll": func(c []value) value { return strings.ReplaceAll(c[0].(string), c[1].(string), c[2].(string)) },
+	"strings.TrimPrefix":    func(c []value) value { return strings.TrimPrefix(c[0].(string), c[1].(string)) },
+	"strings.TrimSuffix":    func(c []value) value { return strings.TrimSuffix(c[0].(string), c[1].(string)) },
+	"strings.TrimSpace":     func(c []value) value { return strings.TrimSpace(c[0].(string)) },
+	"strings.Trim":          func(c []value) value { return strings.Trim(c[0].(string), c[1].(string)) },
+	"strings.TrimLeft":      func(c []value) value { return strings.TrimLeft(c[0].(string), c[1].(string)) },
+	"strings.TrimRight":     func(c []value) value { return strings.TrimRight(c[0].(string), c[1].(string)) },
+	"strings.ToLower":       func(c []value) value { return strings.ToLower(c[0].(string)) },
+	"strings.ToUpper":       func(c []value) value { return strings.ToUpper(c[0].(string)) },
+	"strings.EqualFold":     func(c []value) value { return strings.EqualFold(c[0].(string), c[1].(string)) },
+	"strings.Compare":       func(c []value) value { return strings.Compare(c[0].(string), c[1].(string)) },
+	"strings.Count":         func(c []value) value { return strings.Count(c[0].(string), c[1].(string)) },
+	"strings.Repeat":        func(c []value) value { return strings.Repeat(c[0].(string), int(asInt64(c[1]))) },
+	"strings.ReplaceAll":    func(c []value) value { return strings.ReplaceAll(c[0].(string), c[1].(string), c[2].(string)) },
 	"strings.Replace": func(c []value) value {
 		return strings.Replace(c[0].(string), c[1].(string), c[2].(string), int(asInt64(c[3])))
 	},
-	"strings.Title":     func(c []value) value { return strings.Title(c[0].(string)) },
-	"strconv.Itoa":      func(c []value) value { return strconv.Itoa(int(asInt64(c[0]))) },
-	"strconv.Quote":     func(c []value) value { return strconv.Quote(c[0].(string)) },
+	"strings.Title":      func(c []value) value { return strings.Title(c[0].(string)) },
+	"strconv.Itoa":       func(c []value) value { return strconv.Itoa(int(asInt64(c[0]))) },
+	"strconv.Quote":      func(c []value) value { return strconv.Quote(c[0].(string)) },
 	"strconv.FormatBool": func(c []value) value { return strconv.FormatBool(c[0].(bool)) },
-	"strconv.FormatInt": func(c []value) value { return strconv.FormatInt(asInt64(c[0]), int(asInt64(c[1]))) },
-	"unicode.IsUpper":   func(c []value) value { return unicode.IsUpper(rune(asInt64(c[0]))) },
-	"unicode.IsLower":   func(c []value) value { return unicode.IsLower(rune(asInt64(c[0]))) },
-	"unicode.IsDigit":   func(c []value) value { return unicode.IsDigit(rune(asInt64(c[0]))) },
-	"unicode.IsLetter":  func(c []value) value { return unicode.IsLetter(rune(asInt64(c[0]))) },
-	"unicode.IsSpace":   func(c []value) value { return unicode.IsSpace(rune(asInt64(c[0]))) },
-	"unicode.ToLower":   func(c []value) value { return unicode.ToLower(rune(asInt64(c[0]))) },
-	"unicode.ToUpper":   func(c []value) value { return unicode.ToUpper(rune(asInt64(c[0]))) },
+	"strconv.FormatInt":  func(c []value) value { return strconv.FormatInt(asInt64(c[0]), int(asInt64(c[1]))) },
+	"unicode.IsUpper":    func(c []value) value { return unicode.IsUpper(rune(asInt64(c[0]))) },
+	"unicode.IsLower":    func(c []value) value { return unicode.IsLower(rune(asInt64(c[0]))) },
+	"unicode.IsDigit":    func(c []value) value { return unicode.IsDigit(rune(asInt64(c[0]))) },
+	"unicode.IsLetter":   func(c []value) value { return unicode.IsLetter(rune(asInt64(c[0]))) },
+	"unicode.IsSpace":    func(c []value) value { return unicode.IsSpace(rune(asInt64(c[0]))) },
+	"unicode.ToLower":    func(c []value) value { return unicode.ToLower(rune(asInt64(c[0]))) },
+	"unicode.ToUpper":    func(c []value) value { return unicode.ToUpper(rune(asInt64(c[0]))) },
 }
 
 func init() {
